@@ -59,6 +59,13 @@ def _scenario(name, ops, tier, allow=1):
                     alts.append(z3.And(s[("pc", ti)] == pc, z3.Or(buflen > 0, s[("fld", "bp", "_closed")])))
         done = m.all_done(s)
         fed = s[("tail", "bp.buffer")]                       # everything ever appended (initial content included)
+        # (0) every byte handed to feed() is appended, whatever the state of the pipe (data fed after close() stays
+        # readable: set_combine_stderr moves stderr data over after end of file)
+        asked = m.S[0][("tail", "bp.buffer")]
+        for tn, kind in ops:
+            if kind == "feed":
+                asked = asked + P[tn + ".n"].i
+        alts.append(z3.And(done, fed != asked))
         res = []
         for tn, kind in ops:
             ti = tix[tn]
